@@ -247,6 +247,16 @@ def make_sourcecat(cfg):
         cy, cx = CENTRES[k]
         r2 = (4.5, 6.0, 2.0, 8.0, 1.0)[k]
         seg[((yy - cy) ** 2 + (xx - cx) ** 2 <= r2) & (seg == 0)] = labels[order[k]]
+    if cfg.get('thin') and n >= 2:
+        # degenerate footprints: a one-row streak and a single pixel (cutouts of shape (1, W) and
+        # (1, 1); Kron radius 0)
+        for k, cells in ((n - 1, [(0, -1), (0, 0), (0, 1)]), (n - 2, [(0, 0)])):
+            seg[seg == labels[order[k]]] = 0
+            cy, cx = CENTRES[k]
+            for dy, dx in cells:
+                seg[int(cy) + dy, int(cx) + dx] = labels[order[k]]
+        if cfg.get('dark_sky'):
+            data = np.where(seg > 0, np.abs(data) + 1.0, 0.0)    # exactly zero sky: Kron radius 0
     if cfg.get('masked_source') and n >= 1:
         k = n - 1
         data = data.copy()
@@ -272,6 +282,7 @@ def make_sourcecat(cfg):
         detcat = SourceCatalog(q(det_data), segm, wcs=wcs, apermask_method=cfg.get('apermask', 'correct'))
     cat = SourceCatalog(q(data), segm, error=q(error), background=q(bkg), mask=mask, wcs=wcs,
                         localbkg_width=cfg.get('localbkg', 0),
+                        kron_params=tuple(cfg.get('kron_params', (2.5, 1.4, 0.0))),
                         apermask_method=cfg.get('apermask', 'correct'), detection_cat=detcat)
     if cfg.get('extras'):
         cat.add_extra_property('ex_arr', np.arange(n) * 1.5 + 0.25)
@@ -1010,6 +1021,13 @@ def configs(ctx):
          'labels': 'consecutive'},
         {'cls': 'SC', 'n': 1, 'seed': 17, 'wcs': False, 'error': False, 'bkg': False, 'extras': True,
          'masked_source': True},
+        {'cls': 'SC', 'n': 3, 'seed': 18, 'wcs': False, 'error': True, 'bkg': False, 'extras': True,
+         'labels': 'consecutive', 'thin': True},
+        {'cls': 'SC', 'n': 2, 'seed': 19, 'wcs': False, 'error': False, 'bkg': False, 'extras': False,
+         'labels': 'consecutive', 'thin': True, 'dark_sky': True},
+        # a minimum circular radius larger than every source: the Kron radius is 0 for all of them
+        {'cls': 'SC', 'n': 3, 'seed': 20, 'wcs': False, 'error': True, 'bkg': False, 'extras': False,
+         'labels': 'gaps', 'kron_params': [2.5, 1.4, 50.0]},
     ]
     ap = [
         {'cls': 'AS', 'n': 5, 'seed': 21, 'aper': 'circ', 'error': True, 'wcs': True,
